@@ -94,6 +94,15 @@ def run(R):
         R.gate("C10.put.prune-first", pv, CallSink("tokio::task::spawn::spawn"), [[CallGuard([PRUNE], ("Ok",), "prune_records_if_needed is Ok")]],
                descr="the disk write is spawned only after capacity was granted")
         prep(pv)
+        # an eviction is always paid for by a write: once capacity was granted (and possibly a record evicted), every path to a
+        # normal return spawns the disk write — the "identical content already cached" shortcut must come before, not after
+        gpr = CallGuard([PRUNE], ("Ok",), "prune_records_if_needed is Ok")
+        n_, acc_, _ = gpr.edges(pv)
+        if acc_:
+            R.must_pass("C10.put.prune-last", pv, [("spawn(write)", CallSink("tokio::task::spawn::spawn"))], from_blocks=tuple(d for _, d in acc_),
+                        descr="after capacity was granted (a record may have been evicted) the record is always written")
+        else:
+            R.viol("C10.put.prune-last", "guard-missing", "put_verified does not branch on prune_records_if_needed", pv, pv.lines[0])
         ta = Taint(pv)
         keys = ta.closure({d for d, r, p in field_reads(pv, "key")})
         pc = [b for b in pv.blocks if b["term"]["k"] == "call" and callee_matches(b["term"], [PRUNE])]
